@@ -251,6 +251,8 @@ class Client:
             o = fn()
             if r.random() < 0.25:
                 self.rx([0x80, 0, 0, 0, 0, 0, 4, 5])
+            elif r.random() < self.w.get("nmtreset", 0.08):
+                self.ev.append(["rx", 0, 2, 130, 0, 0, 0, 0, 0, 0, 0])        # NMT reset communication instead of a client abort
             if o is not None and r.random() < 0.7:
                 self.dump(o)
             if r.random() < 0.2:
@@ -266,7 +268,8 @@ PROFILES = {
     "C03": dict(exp_dl=1, seg_dl=1, blk_dl=1, seg_ul=5, blk_ul=6, noise=0.5, abandon=0.12),
     "C04": dict(exp_dl=3, seg_dl=3, blk_dl=3, seg_ul=3, blk_ul=3, noise=3, abandon=0.3),
     "C09": dict(exp_dl=2, seg_dl=2, blk_dl=5, seg_ul=2, blk_ul=5, noise=2, abandon=0.2),
-    "C05": dict(exp_dl=2, seg_dl=3, blk_dl=3, seg_ul=3, blk_ul=3, noise=2, abandon=0.45),
+    "C05": dict(exp_dl=2, seg_dl=3, blk_dl=3, seg_ul=3, blk_ul=3, noise=2, abandon=0.45, nmtreset=0.25),
+    "C20": dict(exp_dl=1, seg_dl=3, blk_dl=4, seg_ul=2, blk_ul=4, noise=1, abandon=0.6, nmtreset=0.5),
 }
 
 
@@ -296,7 +299,7 @@ def run(ctx, nbeh, ndlg=8, nfiles=16, profile=None, nsrv=1):
                 cl[1].only = lambda o: TDICT.index(o) % 2 == 1
             evs = [cl[0].behaviour(ndlg // 2 + 1), cl[1].behaviour(ndlg // 2 + 1)]
             for e in evs[1]:
-                if e[0] == "rx":
+                if e[0] == "rx" and e[1] == RX:
                     e[1] = SRV_RX[2]
             ev = []
             while evs[0] or evs[1]:
@@ -335,7 +338,9 @@ def run(ctx, nbeh, ndlg=8, nfiles=16, profile=None, nsrv=1):
                 linemap.append((bi, -1))
                 for si, (st, obs) in enumerate(zip(b.steps, steps)):
                     e = st["e"]
-                    if e[0] == "rx":
+                    if e[0] == "rx" and e[1] == 0:
+                        rec = dict(e="nmtreset")
+                    elif e[0] == "rx":
                         srv = 2 if e[1] == SRV_RX[2] else 1
                         rec = dict(e="rx", srv=srv, f=e[3:11], tx=[it[3:11] for it in obs if it[0] == "tx" and it[1] == SRV_TX[srv]],
                                    other=[it for it in obs if it[0] == "tx" and it[1] != SRV_TX[srv]],
